@@ -29,8 +29,22 @@ def dtname(dt):
 
 
 def mkarr(col):
-    """fresh ndarray from {'dt':…, 'v':[ints]}"""
-    return np.array(col['v'], dtype=np.int64).astype(NP_DT[col['dt']])
+    """fresh ndarray from {'dt':…, 'v':[ints], 'layout': contiguous | strided | reversed | struct-field}: the memory layout of
+    an array the caller hands in is the caller's business — the container must behave the same"""
+    vals = np.array(col['v'], dtype=np.int64).astype(NP_DT[col['dt']])
+    lay = col.get('layout')
+    n = len(vals)
+    if lay == 'strided':
+        big = np.zeros(2 * n + 1, dtype=vals.dtype)
+        big[1::2] = vals
+        return big[1::2]
+    if lay == 'reversed':
+        return vals[::-1].copy()[::-1]
+    if lay == 'struct':
+        s_ = np.zeros(n, dtype=[('p', np.int8), ('q', vals.dtype), ('r', np.float64)])
+        s_['q'] = vals
+        return s_['q']
+    return vals
 
 
 def mksel(sel):
@@ -85,6 +99,10 @@ def impl_apply(conts, op, held=None):
             return ('ok', ['cont', len(conts) - 1])
         if k == 'freeze':
             conts[op['d']][UNIVERSE[op['m']]].flags.writeable = False
+            return ('ok', ['unit'])
+        if k == 'poke':
+            # the caller writes into the array __getitem__ handed out
+            conts[op['d']][UNIVERSE[op['m']]][op['k']] = op['v']
             return ('ok', ['unit'])
         if k == 'newShared':
             arr = conts[op['d']][UNIVERSE[op['m']]]
@@ -301,6 +319,17 @@ def ref_apply(tabs, op, impl_out=None):
         if k == 'freeze':
             tabs[op['d']].cells[UNIVERSE[op['m']]].ro = True
             return ('ok', ['unit'])
+        if k == 'poke':
+            src, nm = tabs[op['d']], UNIVERSE[op['m']]
+            if nm not in src.names:
+                raise RefErr('key')
+            cell = src.cells[nm]
+            if cell.ro:
+                raise RefErr('value')
+            if not 0 <= op['k'] < len(cell.a):
+                raise RefErr('index')
+            cell.a[op['k']] = op['v']
+            return ('ok', ['unit'])
         if k == 'newShared':
             src, nm = tabs[op['d']], UNIVERSE[op['m']]
             if nm not in src.names:
@@ -464,6 +493,19 @@ def row_apply(rows, op, impl_out=None, blocked=False, impl_ok=True):
             return ('ok', ['cont', len(rows) - 1])
         if k == 'freeze':
             return ('ok', ['unit'])
+        if k == 'poke':
+            t = rows[op['d']]
+            if t is None:
+                return None
+            nm = UNIVERSE[op['m']]
+            if nm not in t.names:
+                raise RefErr('key')
+            if blocked:
+                raise RefErr('value')
+            if not 0 <= op['k'] < t.n:
+                raise RefErr('index')
+            t.arr[nm][op['k']] = op['v']          # one field of one row
+            return ('ok', ['unit'])
         if k == 'newShared':
             if involved(op['d']):
                 if impl_ok:
@@ -592,10 +634,13 @@ def row_apply(rows, op, impl_out=None, blocked=False, impl_ok=True):
         return ('err', e.kind)
 
 
-def written_shared(tabs, c):
-    """containers that hold an array object written by a set_selection on container c and bound in more than one slot"""
+def written_shared(tabs, c, only=None):
+    """containers that hold an array object written by a set_selection on container c (or, `only`: by a caller's write
+    into that one column) and bound in more than one slot"""
     out = set()
     for nm in tabs[c].names:
+        if only is not None and nm != only:
+            continue
         cell = tabs[c].cells[nm]
         holders = [ci for ci, t in enumerate(tabs) for m in t.names if t.cells[m] is cell]
         if len(holders) > 1:
@@ -624,6 +669,8 @@ def op_line(op, perm=None):
         return 'newShared %d %d' % (op['d'], op['m'])
     if k == 'freeze':
         return 'freeze %d %d' % (op['d'], op['m'])
+    if k == 'poke':
+        return 'poke %d %d %d %d' % (op['d'], op['m'], op['k'], op['v'])
     c = op['c']
     if k in ('appendFieldFrom', 'setItemFrom'):
         return '%s %d %d %d %d' % (k, c, op['n'], op['d'], op['m'])
